@@ -6,7 +6,6 @@ From YK Require Import Base.Int64 Base.Res Preempt.Snapshot Preempt.Victims Pree
   Preempt.TreeLemmas Preempt.VictimsProofs.
 Import ListNotations.
 Open Scope Z_scope.
-Set Default Timeout 30.
 
 (* ---- attempt_only_under_guarantee ---- *)
 Theorem attempt_only_under_guarantee_tp : forall fixed w o, In o (tryPreemptionF fixed w) -> o_ok o = true ->
